@@ -68,8 +68,16 @@ func (w *recW) Write(p []byte) (int, error) {
 		}
 		return 0, fmt.Errorf("injected failure on writer %d", w.id)
 	}
+	if successSkew != nil { // a destination that takes the whole record and reports another count, with no error
+		return len(p) + successSkew(w.id, len(p)), nil
+	}
 	return len(p), nil
 }
+
+// successSkew, when set: what a successful Write of writer w adds to the count it reports (a wrapping writer that returns
+// its inner count, a line sink that does not count the line feed).  The record was taken whole; logg has no reason to
+// write again, to stop, or to report anything
+var successSkew func(w int, n int) int
 
 type recLW struct{ recW }
 
